@@ -153,9 +153,10 @@ def show(v) -> str:
 
 
 class Summary:
-    __slots__ = ("ret", "reached", "raises", "normal")
+    __slots__ = ("ret", "reached", "raises", "normal", "branches")
 
     def __init__(self):
+        self.branches: Set[Tuple[int, bool]] = set()  # feasible (if-stmt, outcome) pairs
         self.ret: FrozenSet = BOT
         self.reached: Set[int] = set()  # id(stmt) of statements reached
         self.raises: Set[int] = set()
@@ -535,6 +536,10 @@ class Frame:
             self.ev(s.test, env)
             et = self.narrow(s.test, env, True) if folded is not False else None
             ef = self.narrow(s.test, env, False) if folded is not True else None
+            if et is not None:
+                self.sm.branches.add((id(s), True))
+            if ef is not None:
+                self.sm.branches.add((id(s), False))
             a = self.block(s.body, et) if et is not None else None
             b = self.block(s.orelse, ef) if ef is not None else None
             return join_env(a, b)
